@@ -1085,4 +1085,358 @@ theorem coordPos_rect_eq_locate (mn mx p : Pt) (hx : mn.x < mx.x) (hy : mn.y < m
 example : coordPos (.rect ⟨0, 0⟩ ⟨2, 3⟩) ⟨2, 1⟩ = locate (.rect ⟨0, 0⟩ ⟨2, 3⟩) ⟨2, 1⟩ :=
   coordPos_rect_eq_locate _ _ _ (by norm_num) (by norm_num)
 
+/-! ### 3. Polygon, MultiPolygon -/
+
+/-- closed with at least two coordinates (what the ring lemmas need; valid rings have ≥ 4) -/
+def RingOK (r : List Pt) : Prop := r.head? = r.getLast? ∧ 2 ≤ r.length
+
+/-- the specification's position relative to one ring -/
+def ringLoc (p : Pt) (r : List Pt) : Pos :=
+  if onAnySeg p (segs r) = true then .onBoundary
+  else if windingE (EPt.ofPt p) r ≠ 0 then .inside else .outside
+
+theorem onAnySeg_iff (p : Pt) (ss : List (Pt × Pt)) :
+    onAnySeg p ss = true ↔ ∃ edge ∈ ss, lineCoord edge.1 edge.2 p = true := by
+  unfold onAnySeg
+  rw [List.any_eq_true]
+
+/-- On a closed ring geo's `coord_pos_relative_to_ring` is the specification's ring position. -/
+theorem ringPos_eq_ringLoc (p : Pt) (r : List Pt) (h : RingOK r) : ringPos p r = ringLoc p r := by
+  unfold ringLoc
+  have hb := ringPos_boundary_iff_closed p r h.2 h.1
+  rw [← onAnySeg_iff] at hb
+  by_cases hon : onAnySeg p (segs r) = true
+  · rw [if_pos hon]; exact hb.mpr hon
+  · rw [if_neg hon]
+    have hnb : ringPos p r ≠ .onBoundary := fun h' => hon (hb.mp h')
+    by_cases hw : windingE (EPt.ofPt p) r ≠ 0
+    · rw [if_pos hw]; exact (ringPos_eq_spec p r h.2 hnb).mpr hw
+    · rw [if_neg hw]
+      exact (ringPos_outside_iff p r h.2 hnb).mpr (not_not.mp hw)
+
+theorem ringLoc_boundary_iff (p : Pt) (r : List Pt) :
+    ringLoc p r = .onBoundary ↔ onAnySeg p (segs r) = true := by
+  unfold ringLoc
+  by_cases hon : onAnySeg p (segs r) = true
+  · simp [hon]
+  · rw [if_neg hon]; split <;> simp [hon]
+
+theorem ringLoc_inside_iff (p : Pt) (r : List Pt) :
+    ringLoc p r = .inside ↔ onAnySeg p (segs r) = false ∧ windingE (EPt.ofPt p) r ≠ 0 := by
+  unfold ringLoc
+  by_cases hon : onAnySeg p (segs r) = true
+  · simp [hon]
+  · rw [if_neg hon]
+    have : onAnySeg p (segs r) = false := by simpa using hon
+    split <;> simp_all
+
+theorem ringLoc_outside_iff (p : Pt) (r : List Pt) :
+    ringLoc p r = .outside ↔ onAnySeg p (segs r) = false ∧ windingE (EPt.ofPt p) r = 0 := by
+  unfold ringLoc
+  by_cases hon : onAnySeg p (segs r) = true
+  · simp [hon]
+  · rw [if_neg hon]
+    have : onAnySeg p (segs r) = false := by simpa using hon
+    split <;> simp_all
+
+theorem locateParts_poly (poly : Poly) (p : Pt) :
+    locateParts ⟨[], [], [poly]⟩ p =
+      if (!(poly.rings.any fun r => onAnySeg p (segs r)) &&
+          (windingE (EPt.ofPt p) poly.ext != 0 && poly.ints.all (fun h => windingE (EPt.ofPt p) h == 0))) = true
+        then .inside
+      else if ((poly.rings.any fun r => onAnySeg p (segs r)) || poly.rings.any (fun r => r == [p])) = true
+        then .onBoundary
+      else .outside := by
+  simp only [locateParts, Parts.areaSegs, Parts.curveSegs, List.any_nil, List.flatMap_nil,
+    Bool.false_eq_true, if_false, List.any_cons, Bool.or_false, List.flatMap_cons,
+    List.append_nil, insidePolyE, onAnySeg_flatMap]
+  simp only [onAnySeg, List.any_nil, Bool.false_eq_true, if_false]
+  rfl
+
+/-- the holes loop, from the empty accumulator, when no point strictly inside one hole lies on
+another hole's ring -/
+theorem calcHoles_result (p : Pt) (hs : List (List Pt)) (hok : ∀ h ∈ hs, RingOK h)
+    (H2 : ∀ h ∈ hs, ∀ h' ∈ hs, ringPos p h = .inside → onAnySeg p (segs h') = false) :
+    (calcHoles p hs ⟨false, 0⟩).result =
+      if (hs.any fun h => onAnySeg p (segs h)) = true then .onBoundary
+      else if (hs.all fun h => windingE (EPt.ofPt p) h == 0) = true then .inside else .outside := by
+  induction hs with
+  | nil => simp [calcHoles, PosAcc.result]
+  | cons h t ih =>
+    have hokt : ∀ h ∈ t, RingOK h := fun x hx => hok x (List.mem_cons_of_mem _ hx)
+    have H2t : ∀ x ∈ t, ∀ y ∈ t, ringPos p x = .inside → onAnySeg p (segs y) = false :=
+      fun x hx y hy => H2 x (List.mem_cons_of_mem _ hx) y (List.mem_cons_of_mem _ hy)
+    have hrl := ringPos_eq_ringLoc p h (hok h List.mem_cons_self)
+    unfold calcHoles
+    cases hp : ringPos p h with
+    | outside =>
+      simp only
+      rw [hrl, ringLoc_outside_iff] at hp
+      rw [ih hokt H2t]
+      simp [hp.1, hp.2]
+    | onBoundary =>
+      simp only
+      rw [hrl, ringLoc_boundary_iff] at hp
+      simp [hp, PosAcc.result]
+    | inside =>
+      simp only
+      have hall : ∀ y ∈ h :: t, onAnySeg p (segs y) = false :=
+        fun y hy => H2 h List.mem_cons_self y hy hp
+      rw [hrl, ringLoc_inside_iff] at hp
+      have hany : ((h :: t).any fun h => onAnySeg p (segs h)) = false := by
+        rw [List.any_eq_false]
+        intro y hy; rw [hall y hy]; simp
+      rw [hany]
+      have hw : (windingE (EPt.ofPt p) h == 0) = false := by simpa using hp.2
+      simp [hw, PosAcc.result]
+
+theorem ring_ne_single {r : List Pt} (h : RingOK r) (p : Pt) : (r == [p]) = false := by
+  match r, h.2 with
+  | a :: b :: rest, _ => simp
+
+/-- **Polygon.** With closed rings, and for a query point `p` such that (H1) `p` on a hole ring is
+not outside the shell and (H2) `p` strictly inside one hole is on no hole ring, the modelled
+`coordinate_position` is the specification's location. -/
+theorem coordPos_polygon_eq_locate_at (poly : Poly) (p : Pt)
+    (hext : RingOK poly.ext) (hints : ∀ h ∈ poly.ints, RingOK h)
+    (H1 : ∀ h ∈ poly.ints, onAnySeg p (segs h) = true → ringPos p poly.ext ≠ .outside)
+    (H2 : ∀ h ∈ poly.ints, ∀ h' ∈ poly.ints, ringPos p h = .inside → onAnySeg p (segs h') = false) :
+    coordPos (.polygon poly) p = locate (.polygon poly) p := by
+  have hl : locate (.polygon poly) p = locateParts ⟨[], [], [poly]⟩ p := rfl
+  have hne : poly.ext.isEmpty = false := by
+    match h : poly.ext, hext.2 with
+    | a :: b :: rest, _ => rfl
+  have hsingle : (poly.rings.any fun r => r == [p]) = false := by
+    rw [List.any_eq_false]
+    intro r hr
+    have : RingOK r := by
+      rcases List.mem_cons.mp hr with h | h
+      · rw [h]; exact hext
+      · exact hints r h
+    rw [ring_ne_single this]; simp
+  have hrings : (poly.rings.any fun r => onAnySeg p (segs r)) =
+      (onAnySeg p (segs poly.ext) || poly.ints.any fun r => onAnySeg p (segs r)) := by
+    simp [Poly.rings]
+  rw [hl, locateParts_poly, hsingle, hrings]
+  have hc : coordPos (.polygon poly) p = (calcPolygon poly p ⟨false, 0⟩).result := by
+    simp only [coordPos, calcPos]
+  rw [hc]
+  unfold calcPolygon
+  rw [hne]
+  simp only [Bool.false_eq_true, if_false, Bool.or_false]
+  have hrl := ringPos_eq_ringLoc p poly.ext hext
+  cases hp : ringPos p poly.ext with
+  | outside =>
+    simp only
+    have hp' := hp
+    rw [hrl, ringLoc_outside_iff] at hp'
+    have hany : (poly.ints.any fun r => onAnySeg p (segs r)) = false := by
+      rw [List.any_eq_false]
+      intro h hh hon
+      exact H1 h hh hon hp
+    simp [hp'.1, hp'.2, hany, PosAcc.result]
+  | onBoundary =>
+    simp only
+    rw [hrl, ringLoc_boundary_iff] at hp
+    simp [hp, PosAcc.result]
+  | inside =>
+    simp only
+    rw [hrl, ringLoc_inside_iff] at hp
+    rw [calcHoles_result p poly.ints hints H2]
+    have hw : (windingE (EPt.ofPt p) poly.ext != 0) = true := by simpa using hp.2
+    rw [hp.1, hw]
+    by_cases hany : (poly.ints.any fun r => onAnySeg p (segs r)) = true
+    · simp [hany]
+    · have hany' : (poly.ints.any fun r => onAnySeg p (segs r)) = false := by simpa using hany
+      rw [hany']
+      simp
+
+/-! #### MultiPolygon -/
+
+/-- the holes loop for an arbitrary accumulator -/
+theorem calcHoles_acc (p : Pt) (hs : List (List Pt)) (acc : PosAcc) :
+    calcHoles p hs acc =
+      match (calcHoles p hs ⟨false, 0⟩).result with
+      | .onBoundary => { acc with bcount := acc.bcount + 1 }
+      | .inside => { acc with inside := true }
+      | .outside => acc := by
+  induction hs with
+  | nil => simp [calcHoles, PosAcc.result]
+  | cons h t ih =>
+    unfold calcHoles
+    cases ringPos p h with
+    | outside => simp only; exact ih
+    | onBoundary => simp [PosAcc.result]
+    | inside => simp [PosAcc.result]
+
+/-- the Polygon clause for an arbitrary accumulator, through its own `coordinate_position` -/
+theorem calcPolygon_acc (poly : Poly) (p : Pt) (acc : PosAcc) :
+    calcPolygon poly p acc =
+      match coordPos (.polygon poly) p with
+      | .onBoundary => { acc with bcount := acc.bcount + 1 }
+      | .inside => { acc with inside := true }
+      | .outside => acc := by
+  have hc : coordPos (.polygon poly) p = (calcPolygon poly p ⟨false, 0⟩).result := by
+    simp only [coordPos, calcPos]
+  rw [hc]
+  unfold calcPolygon
+  by_cases he : poly.ext.isEmpty = true
+  · simp [he, PosAcc.result]
+  · rw [if_neg he, if_neg he]
+    cases ringPos p poly.ext with
+    | outside => simp [PosAcc.result]
+    | onBoundary => simp [PosAcc.result]
+    | inside => simp only; exact calcHoles_acc p poly.ints acc
+
+theorem mpoly_fold (p : Pt) (ps : List Poly) (acc : PosAcc) :
+    ps.foldl (fun a poly => calcPolygon poly p a) acc =
+      ⟨acc.inside || ps.any (fun m => coordPos (.polygon m) p == .inside),
+       acc.bcount + (ps.filter (fun m => coordPos (.polygon m) p == .onBoundary)).length⟩ := by
+  induction ps generalizing acc with
+  | nil => simp
+  | cons m t ih =>
+    simp only [List.foldl_cons, List.any_cons, List.filter_cons]
+    rw [ih, calcPolygon_acc]
+    have e1 : (Pos.outside == Pos.inside) = false := rfl
+    have e2 : (Pos.outside == Pos.onBoundary) = false := rfl
+    have e3 : (Pos.onBoundary == Pos.inside) = false := rfl
+    have e4 : (Pos.inside == Pos.onBoundary) = false := rfl
+    cases coordPos (.polygon m) p with
+    | outside => simp [e1, e2]
+    | onBoundary => simp [e3]; omega
+    | inside => simp [e4]
+
+/-- the MultiPolygon clause (after the fix): boundary if any member reports boundary, else inside
+if any member reports inside -/
+theorem coordPos_multiPolygon (ps : List Poly) (p : Pt) :
+    coordPos (.multiPolygon ps) p =
+      if (ps.any fun m => coordPos (.polygon m) p == .onBoundary) = true then .onBoundary
+      else if (ps.any fun m => coordPos (.polygon m) p == .inside) = true then .inside else .outside := by
+  have hc : coordPos (.multiPolygon ps) p = (calcMultiPolygon ps p ⟨false, 0⟩).result := by
+    simp only [coordPos, calcPos]
+  rw [hc]
+  unfold calcMultiPolygon
+  simp only [mpoly_fold, Bool.false_or, Nat.zero_add]
+  by_cases hb : (ps.any fun m => coordPos (.polygon m) p == .onBoundary) = true
+  · have : 0 < (ps.filter (fun m => coordPos (.polygon m) p == .onBoundary)).length := by
+      rw [List.length_pos_iff]
+      obtain ⟨m, hm, h⟩ := List.any_eq_true.mp hb
+      intro hnil
+      rw [List.filter_eq_nil_iff] at hnil
+      exact hnil m hm h
+    simp [hb, this, PosAcc.result]
+  · have : (ps.filter (fun m => coordPos (.polygon m) p == .onBoundary)).length = 0 := by
+      rw [List.length_eq_zero_iff, List.filter_eq_nil_iff]
+      intro m hm h
+      exact hb (List.any_eq_true.mpr ⟨m, hm, h⟩)
+    rw [this, if_neg hb]
+    by_cases hi : (ps.any fun m => coordPos (.polygon m) p == .inside) = true <;> simp [hi, PosAcc.result]
+
+theorem any_or_any {α : Type} (l : List α) (f g : α → Bool) :
+    (l.any f || l.any g) = l.any (fun a => f a || g a) := by
+  induction l with
+  | nil => rfl
+  | cons a t ih =>
+    simp only [List.any_cons, ← ih]
+    cases f a <;> cases g a <;> cases t.any f <;> cases t.any g <;> rfl
+
+/-- `locate` on areal members only, raw form -/
+theorem locateParts_areas_raw (ps : List Poly) (p : Pt) :
+    locateParts ⟨[], [], ps⟩ p =
+      if (ps.any fun m => !(onAnySeg p (m.rings.flatMap segs)) && insidePolyE (EPt.ofPt p) m) = true
+        then .inside
+      else if (ps.any fun m => onAnySeg p (m.rings.flatMap segs) || m.rings.any (fun r => r == [p])) = true
+        then .onBoundary
+      else .outside := by
+  have h1 : onAnySeg p ((ps.flatMap Poly.rings).flatMap segs) =
+      ps.any (fun m => onAnySeg p (m.rings.flatMap segs)) := by
+    unfold onAnySeg
+    rw [List.flatMap_assoc, List.any_flatMap]
+  simp only [locateParts, Parts.areaSegs, Parts.curveSegs, List.flatMap_nil, List.any_nil, h1,
+    any_or_any]
+  simp only [onAnySeg, List.any_nil, Bool.false_eq_true, if_false]
+  rfl
+
+/-- `locate` of a MultiPolygon through the locations relative to its members: interior of a
+member first, then boundary of a member. -/
+theorem locate_multiPolygon (ps : List Poly) (p : Pt) :
+    locate (.multiPolygon ps) p =
+      if (ps.any fun m => locate (.polygon m) p == .inside) = true then .inside
+      else if (ps.any fun m => locate (.polygon m) p == .onBoundary) = true then .onBoundary
+      else .outside := by
+  have hl : locate (.multiPolygon ps) p = locateParts ⟨[], [], ps⟩ p := rfl
+  have h1 : ∀ m : Poly, locate (.polygon m) p =
+      if (!(onAnySeg p (m.rings.flatMap segs)) && insidePolyE (EPt.ofPt p) m) = true then .inside
+      else if (onAnySeg p (m.rings.flatMap segs) || m.rings.any (fun r => r == [p])) = true
+        then .onBoundary else .outside := by
+    intro m
+    rw [show locate (.polygon m) p = locateParts ⟨[], [], [m]⟩ p from rfl, locateParts_areas_raw]
+    simp only [List.any_cons, List.any_nil, Bool.or_false]
+  rw [hl, locateParts_areas_raw]
+  have hI : (ps.any fun m => locate (.polygon m) p == .inside) =
+      ps.any fun m => !(onAnySeg p (m.rings.flatMap segs)) && insidePolyE (EPt.ofPt p) m := by
+    rw [Bool.eq_iff_iff, List.any_eq_true, List.any_eq_true]
+    constructor
+    · rintro ⟨m, hm, h⟩
+      refine ⟨m, hm, ?_⟩
+      rw [h1] at h
+      by_cases hi : (!(onAnySeg p (m.rings.flatMap segs)) && insidePolyE (EPt.ofPt p) m) = true
+      · exact hi
+      · rw [if_neg hi] at h
+        split at h <;> cases h
+    · rintro ⟨m, hm, h⟩
+      refine ⟨m, hm, ?_⟩
+      rw [h1, if_pos h]; rfl
+  rw [hI]
+  by_cases hi : (ps.any fun m => !(onAnySeg p (m.rings.flatMap segs)) && insidePolyE (EPt.ofPt p) m) = true
+  · rw [if_pos hi, if_pos hi]
+  · rw [if_neg hi, if_neg hi]
+    have hB : (ps.any fun m => locate (.polygon m) p == .onBoundary) =
+        ps.any fun m => onAnySeg p (m.rings.flatMap segs) || m.rings.any (fun r => r == [p]) := by
+      rw [Bool.eq_iff_iff, List.any_eq_true, List.any_eq_true]
+      have hni : ∀ m ∈ ps, ¬ (!(onAnySeg p (m.rings.flatMap segs)) && insidePolyE (EPt.ofPt p) m) = true :=
+        fun m hm h => hi (List.any_eq_true.mpr ⟨m, hm, h⟩)
+      constructor
+      · rintro ⟨m, hm, h⟩
+        refine ⟨m, hm, ?_⟩
+        rw [h1, if_neg (hni m hm)] at h
+        by_cases hb : (onAnySeg p (m.rings.flatMap segs) || m.rings.any (fun r => r == [p])) = true
+        · exact hb
+        · rw [if_neg hb] at h; cases h
+      · rintro ⟨m, hm, h⟩
+        refine ⟨m, hm, ?_⟩
+        rw [h1, if_neg (hni m hm), if_pos h]; rfl
+    rw [hB]
+
+/-- **MultiPolygon.** If the members' `coordinate_position` is the specification's location and no
+point is in the interior of one member and on the boundary of another (members of a valid
+MultiPolygon have disjoint interiors and touch only at points), the modelled
+`coordinate_position` of the MultiPolygon is the specification's location. -/
+theorem coordPos_multiPolygon_eq_locate_of (ps : List Poly) (p : Pt)
+    (hm : ∀ m ∈ ps, coordPos (.polygon m) p = locate (.polygon m) p)
+    (hd : ∀ m ∈ ps, ∀ m' ∈ ps, locate (.polygon m) p = .inside → locate (.polygon m') p ≠ .onBoundary) :
+    coordPos (.multiPolygon ps) p = locate (.multiPolygon ps) p := by
+  rw [coordPos_multiPolygon, locate_multiPolygon]
+  have e1 : (ps.any fun m => coordPos (.polygon m) p == .onBoundary) =
+      ps.any fun m => locate (.polygon m) p == .onBoundary := by
+    rw [Bool.eq_iff_iff, List.any_eq_true, List.any_eq_true]
+    constructor <;> rintro ⟨m, h, h'⟩ <;> refine ⟨m, h, ?_⟩
+    · rw [← hm m h]; exact h'
+    · rw [hm m h]; exact h'
+  have e2 : (ps.any fun m => coordPos (.polygon m) p == .inside) =
+      ps.any fun m => locate (.polygon m) p == .inside := by
+    rw [Bool.eq_iff_iff, List.any_eq_true, List.any_eq_true]
+    constructor <;> rintro ⟨m, h, h'⟩ <;> refine ⟨m, h, ?_⟩
+    · rw [← hm m h]; exact h'
+    · rw [hm m h]; exact h'
+  rw [e1, e2]
+  by_cases hi : (ps.any fun m => locate (.polygon m) p == .inside) = true
+  · have hb : ¬ (ps.any fun m => locate (.polygon m) p == .onBoundary) = true := by
+      intro hb
+      obtain ⟨m, hmm, h⟩ := List.any_eq_true.mp hi
+      obtain ⟨m', hmm', h'⟩ := List.any_eq_true.mp hb
+      exact hd m hmm m' hmm' (by simpa using h) (by simpa using h')
+    rw [if_neg hb, if_pos hi, if_pos hi]
+  · rw [if_neg hi, if_neg hi]
+
 end Geo.Proofs.Loc
